@@ -18,9 +18,10 @@ def braid_suite(ctx, vh):
     ctx.require_actions(n4, ["AddBasic", "AddMerge"])
     facts = ctx.tlc("MC_Braid", "MC_Braid_facts.cfg", timeout=900, cache=True)
     m0 = ctx.tlc("MC_Braid", "MC_Braid_m0.cfg", timeout=900, cache=True)
-    cases = n4.replays + facts.replays
+    quiet = ctx.tlc("MC_Braid", "MC_Braid_quiet.cfg", timeout=1500, cache=True)
+    cases = n4.replays + facts.replays + quiet.replays
     ctx.cov["braid_cases"] = {"N4_sampled": len(n4.replays), "N4_states": n4.states,
-                              "facts_N3": len(facts.replays), "mergetag0_N3": len(m0.replays)}
+                              "facts_N3": len(facts.replays), "quiet_N4": len(quiet.replays), "mergetag0_N3": len(m0.replays)}
     if not cases or not m0.replays:
         raise verif.ToolError("MC_Braid emitted no cases")
     out += ctx.run_engine(vh, "braid", cases, opts={"twin": 1, "index": 1}, tag="braid")
